@@ -152,7 +152,16 @@ func normaliseForExclusion(call *Call) (mustReject bool) {
 	if len(paths) == 0 || len(call.Expect) == 0 {
 		return false
 	}
-	ent := call.Expect[len(call.Expect)-1]
+	// the entity argument: the last slice / map (batch) or the last pointer that is not a parameter struct
+	ei := len(call.Expect) - 1
+	for i := len(call.Expect) - 1; i >= 0; i-- {
+		t := call.Expect[i].Type().String()
+		if !strings.HasSuffix(t, "Params") {
+			ei = i
+			break
+		}
+	}
+	ent := call.Expect[ei]
 	each := func(f func(v reflect.Value)) {
 		switch ent.Kind() {
 		case reflect.Slice:
